@@ -325,7 +325,7 @@ class Interp:
                 elif base in ("cached_property", "functools.cached_property"):
                     f.kind = "cached_property"
                 elif base in ("lru_cache", "cache", "functools.lru_cache", "functools.cache"):
-                    f.dropped.append(dn)
+                    f.memoised = dn          # modelled in run_memoised: same arguments -> the stored result (a stale entry is visible)
                 elif base in ("abc.abstractmethod", "abstractmethod"):
                     f.dropped.append(dn)
                 elif base in ("singledispatchmethod", "singledispatch", "functools.singledispatch"):
@@ -1657,7 +1657,7 @@ class Interp:
         if getattr(self, "skip_modular_once", None) == fq:
             # the unit's own top-level call of a (recursive) function: execute the body; inner calls use the contract
             self.skip_modular_once = None
-            return self.run_body(f, args, kwargs)
+            return self.run_memoised(f, args, kwargs) if getattr(f, "memoised", None) else self.run_body(f, args, kwargs)
         hook = self.hooks.get(fq)
         contract = self.modular.get(fq)
         if hook is not None or contract is not None:
@@ -1669,7 +1669,35 @@ class Interp:
             raise Unsupported(f"call to {fq}: no contract and not a listed transparent helper")
         if getattr(f, "decorators", None):
             return self.call_decorated(f, args, kwargs)
+        if getattr(f, "memoised", None):
+            return self.run_memoised(f, args, kwargs)
         return self.run_body(f, args, kwargs)
+
+    def memo_key(self, v):
+        """key of one argument of a memoised (functools.lru_cache / cache) function, as CPython's hashing sees it: numbers by
+        value, objects without __eq__ by identity, tuples element-wise; a symbolic value by the identity of its term (two
+        different terms that might be equal count as different keys: the body is then re-executed, never a guessed hit)"""
+        if is_sym(v):
+            return ("sym", v.k, v.t.get_id() if hasattr(v.t, "get_id") else id(v))
+        if isinstance(v, bool) or v is None or isinstance(v, (str, bytes)):
+            return ("c", type(v).__name__, v)
+        if isinstance(v, (int, float, complex, np.integer, np.floating)):
+            return ("n", complex(v))
+        if isinstance(v, tuple):
+            return ("t",) + tuple(self.memo_key(x) for x in v)
+        if isinstance(v, (list, dict, set, np.ndarray)):
+            raise PyRaise("TypeError", f"unhashable type: '{type(v).__name__}' (argument of a memoised function)")
+        return ("o", id(v))
+
+    def run_memoised(self, f, args, kwargs):
+        bound = self.bind_args(f, args, kwargs)
+        key = (f.fq,) + tuple((k, self.memo_key(v)) for k, v in sorted(bound.items()))
+        memo = self.__dict__.setdefault("memo_store", {})
+        if key in memo:
+            return memo[key][0]
+        r = self.run_body(f, args, kwargs)
+        memo[key] = (r, [v for v in bound.values()])       # the arguments are kept alive: ids stay unique
+        return r
 
     def call_decorated(self, f, args, kwargs):
         raise Unsupported(f"function {f.fq} has unsupported decorators {[ast.unparse(d) for d in f.decorators]}")
